@@ -252,7 +252,8 @@ Section Rebase.
 
   Definition same_but_hdr (y y' : obj) : Prop :=
     o_vst y' = o_vst y /\ o_box y' = o_box y /\ o_side y' = o_side y /\ o_cls y' = o_cls y /\
-    o_ismap y' = o_ismap y /\ o_fields y' = o_fields y /\ o_wfields y' = o_wfields y /\ o_cleaner y' = o_cleaner y.
+    o_ismap y' = o_ismap y /\ o_fields y' = o_fields y /\ o_wfields y' = o_wfields y /\ o_cleaner y' = o_cleaner y /\
+    o_mslots y' = o_mslots y.
 
   Lemma remove_from_list_obj m o x : get m o = Some x ->
     exists x', get (remove_from_list o m) o = Some x' /\ same_but_hdr x x' /\
